@@ -32,7 +32,7 @@ func NewAux(fd *slip.FuncDoc) *Aux {
 		dk  []byte
 	)
 	for _, da := range fd.Args {
-		if da.Name[0] == '&' {
+		if 0 < len(da.Name) && da.Name[0] == '&' {
 			break
 		}
 		dk = append(dk, 't', '|')
@@ -142,7 +142,7 @@ func (aux *Aux) LoadForm() slip.Object {
 			if i < aux.reqCnt {
 				sll[i] = slip.List{slip.Symbol(da.Name), slip.Symbol(da.Type)}
 			} else {
-				if da.Name[0] == '&' || da.Default == nil {
+				if (0 < len(da.Name) && da.Name[0] == '&') || da.Default == nil {
 					sll[i] = slip.Symbol(da.Name)
 				} else {
 					sll[i] = slip.List{slip.Symbol(da.Name), da.Default}
